@@ -60,21 +60,25 @@ class Fn:
     """
 
     def __init__(self, relpath, cls, fdef, name, params, fields, reads, writes, draw=None, oracles=None,
-                 gen_size=None, returns_value=True, extra_params=()):
+                 gen_size=None, returns_value=True, extra_params=(), helpers=None):
         self.relpath, self.cls, self.fdef, self.name = relpath, cls, fdef, name
         self.params, self.fields, self.reads, self.writes = params, fields, reads, writes
         self.draw, self.oracles, self.gen_size = draw, oracles or {}, gen_size
         self.returns_value = returns_value
+        self.helpers = helpers or {}     # {name: FunctionDef} methods of the same class that may be inlined
+        self.inline_depth = 0
         self.extra_params = list(extra_params)    # [(coq name, coq type)] e.g. the size of the underlying generator
         self.counter = {}
+        self.fdef_ctx = None
         self.aux = []           # auxiliary top-level definitions (loop functions)
         self.scope = []         # [(coq name, coq type)] in binding order
         self.used_oracles = []
 
     # ------------------------------------------------------------------ helpers
     def err(self, node, what):
+        where = getattr(self, 'fdef_ctx', None) or f'{self.cls}.{self.fdef.name}'
         raise TranslationError(self.relpath, getattr(node, 'lineno', self.fdef.lineno),
-                               f'{self.cls}.{self.fdef.name}: {what}: `{ast.unparse(node)[:80] if isinstance(node, ast.AST) else node}`')
+                               f'{where}: {what}: `{ast.unparse(node)[:80] if isinstance(node, ast.AST) else node}`')
 
     def fresh(self, base):
         base = base.replace('.', '_').replace('#', '')
@@ -145,14 +149,15 @@ class Fn:
             if ta != 'N' or tb != 'N':
                 self.err(node, 'comparison of non-integers')
             op = node.ops[0]
+            # every order comparison is spelled with Nat.ltb, so that a < b, b > a, not a >= b, ... give one term
             if isinstance(op, ast.Lt):
                 return f'Nat.ltb ({a}) ({b})', 'B'
             if isinstance(op, ast.LtE):
-                return f'Nat.leb ({a}) ({b})', 'B'
+                return f'negb (Nat.ltb ({b}) ({a}))', 'B'
             if isinstance(op, ast.Gt):
                 return f'Nat.ltb ({b}) ({a})', 'B'
             if isinstance(op, ast.GtE):
-                return f'Nat.leb ({b}) ({a})', 'B'
+                return f'negb (Nat.ltb ({a}) ({b}))', 'B'
             if isinstance(op, ast.Eq):
                 return f'Nat.eqb ({a}) ({b})', 'B'
             if isinstance(op, ast.NotEq):
@@ -162,6 +167,11 @@ class Fn:
             a, ta = self.expr(node.operand, env, binds, ref)
             if ta != 'B':
                 self.err(node, '`not` of a non-boolean')
+            a = a.strip()
+            while a.startswith('(') and a.endswith(')') and _balanced_outer(a):
+                a = a[1:-1].strip()
+            if a.startswith('negb (') and a.endswith(')') and _balanced_outer(a[5:]):
+                return a[6:-1], 'B'                     # not not c
             return f'negb ({a})', 'B'
         if isinstance(node, ast.BinOp) and isinstance(node.op, (ast.Add, ast.Mult)):
             a, ta = self.expr(node.left, env, binds, ref)
@@ -192,19 +202,40 @@ class Fn:
             e2, t2 = self.expr(node.orelse, env, b2, r2)
             if t1 != t2:
                 self.err(node, f'branches of different types {t1} / {t2}')
-            if not b1 and not b2:
-                return f'(if {c} then {e1} else {e2})', t1
+            if not self.has_partial(b1) and not self.has_partial(b2):
+                c, x1, x2 = self.norm_cond(c, self.wrap_binds(b1, e1), self.wrap_binds(b2, e2))
+                return f'(if {c} then {x1} else {x2})', t1
             v = self.fresh('v')
-            binds.append((v, f'(if {c} then {self.wrap_binds(b1, "Some (" + e1 + ")")} else {self.wrap_binds(b2, "Some (" + e2 + ")")})'))
+            c, x1, x2 = self.norm_cond(c, self.wrap_binds(b1, "Some (" + e1 + ")"), self.wrap_binds(b2, "Some (" + e2 + ")"))
+            binds.append((v, f'(if {c} then {x1} else {x2})'))
             return v, t1
         self.err(node, 'expression not accepted')
 
     @staticmethod
     def wrap_binds(binds, body):
         out = body
-        for name, term in reversed(binds):
-            out = f'({name} <- {term} ;; {out})'
+        for b in reversed(binds):
+            if len(b) == 3:
+                out = f'(let {b[0]} := {b[1]} in {out})'
+            else:
+                out = f'({b[0]} <- {b[1]} ;; {out})'
         return out
+
+    @staticmethod
+    def bind_lines(binds):
+        return [f'let {b[0]} := {b[1]} in' if len(b) == 3 else f'{b[0]} <- {b[1]} ;;' for b in binds]
+
+    @staticmethod
+    def has_partial(binds):
+        return any(len(b) == 2 for b in binds)
+
+    @staticmethod
+    def norm_cond(c, a, b):
+        """`if not c: A else: B` is `if c: B else: A` (so that both spellings give the same term)"""
+        c = c.strip()
+        while c.startswith('negb (') and c.endswith(')') and _balanced_outer(c[5:]):
+            c, a, b = c[6:-1], b, a
+        return c, a, b
 
     def cond(self, node, env, binds, ref):
         c, tc = self.expr(node, env, binds, ref)
@@ -214,6 +245,9 @@ class Fn:
 
     def refine(self, test, ref):
         """refinements for the (then, else) branches of an isinstance test"""
+        if isinstance(test, ast.UnaryOp) and isinstance(test.op, ast.Not):
+            r1, r2 = self.refine(test.operand, ref)
+            return r2, r1
         r1, r2 = dict(ref), dict(ref)
         if (isinstance(test, ast.Call) and isinstance(test.func, ast.Name) and test.func.id == 'isinstance' and len(test.args) == 2):
             k = self.key_of(test.args[0])
@@ -300,6 +334,9 @@ class Fn:
             if b2 or te != 'N':
                 self.err(node, 'element expression not accepted')
             return f'{"py_sum" if text == "sum" else "py_prod"} (map (fun {var} => {e}) {seq})', 'N'
+        if text not in self.oracles and '.' in text and text.split('.', 1)[0] in ('self', self.cls) \
+                and text.split('.', 1)[1] in self.helpers:
+            return self.inline(node, text, env, binds, ref)
         if text in self.oracles:
             cname, cty, rty, argk = self.oracles[text]
             if len(argk) != len(node.args):
@@ -377,9 +414,9 @@ class Fn:
             env2[x], env2[n] = (x, 'T'), (n, 'T')
             b2 = []
             e, te = self.expr(node.elt, env2, b2, ref)
-            if b2 or te != 'T':
+            if self.has_partial(b2) or te != 'T':
                 self.err(node, 'element of a zip comprehension must be a total tensor expression')
-            return f'zipwith (fun {x} {n} => {e}) ({a}) ({b})', 'TS'
+            return f'zipwith (fun {x} {n} => {self.wrap_binds(b2, e)}) ({a}) ({b})', 'TS'
         if isinstance(g.target, ast.Name):
             a, ta = self.expr(g.iter, env, binds, ref)
             a = self.as_seq(g.iter, a, ta)
@@ -389,8 +426,8 @@ class Fn:
             e, te = self.expr(node.elt, env2, b2, ref)
             if te != 'T':
                 self.err(node, 'element of the comprehension is not a tensor')
-            if not b2:
-                return f'map (fun {x} => {e}) ({a})', 'TS'
+            if not self.has_partial(b2):
+                return f'map (fun {x} => {self.wrap_binds(b2, e)}) ({a})', 'TS'
             name = self.fresh('l')
             binds.append((name, f"all_some' (map (fun {x} => {self.wrap_binds(b2, 'Some (' + e + ')')}) ({a}))"))
             return name, 'TS'
@@ -412,6 +449,9 @@ class Fn:
             return []
         e, te = self.expr(value_node, env, binds, ref)
         want = self.fields[k[5:]] if k.startswith('self.') else None
+        if te == 'EMPTY' and want is None:
+            env[k] = ('[]', 'EMPTY')          # a local accumulator; its element type is fixed by the first append
+            return []
         if te == 'EMPTY':
             if want not in ('GS',):
                 self.err(node, 'empty list only as an accumulator of generators')
@@ -419,7 +459,7 @@ class Fn:
         if want is not None:
             e = self.coerce(node, e, te, want)
             te = want
-        lines = [f'{n} <- {t} ;;' for n, t in binds]
+        lines = self.bind_lines(binds)
         name = self.bind(env, k, te)
         lines.append(f'let {name} := {e} in')
         lines += [f'let {n} := {t} in' for n, t in self.pending_lets]
@@ -432,7 +472,7 @@ class Fn:
         self.pending_lets = []
         c, _ = self.cond(node.test, env, binds, ref)
         r1, r2 = self.refine(node.test, ref)
-        lines = [f'{n} <- {t} ;;' for n, t in binds]
+        lines = self.bind_lines(binds)
 
         def single_assign(stmts):
             if len(stmts) == 1 and isinstance(stmts[0], ast.Assign) and len(stmts[0].targets) == 1:
@@ -464,10 +504,12 @@ class Fn:
             e1, e2 = self.coerce(node, e1, ty, want) if node.orelse else e1, self.coerce(node, e2, ty, want) if node.orelse else e2
             ty = want
         name = self.bind(env, k, ty)
-        if b1 or b2:
-            lines.append(f'{name} <- (if {c} then {self.wrap_binds(b1, "Some (" + e1 + ")")} else {self.wrap_binds(b2, "Some (" + e2 + ")")}) ;;')
+        if self.has_partial(b1) or self.has_partial(b2):
+            c, x1, x2 = self.norm_cond(c, self.wrap_binds(b1, "Some (" + e1 + ")"), self.wrap_binds(b2, "Some (" + e2 + ")"))
+            lines.append(f'{name} <- (if {c} then {x1} else {x2}) ;;')
         else:
-            lines.append(f'let {name} := if {c} then {e1} else {e2} in')
+            c, x1, x2 = self.norm_cond(c, self.wrap_binds(b1, e1), self.wrap_binds(b2, e2))
+            lines.append(f'let {name} := if {c} then {x1} else {x2} in')
         return lines
 
     def ret_value(self, node, env, ref, binds):
@@ -519,8 +561,9 @@ class Fn:
                 self.pending_lets = []
                 c, _ = self.cond(s.test, env, binds, ref)
                 return self.wrap_binds(binds, f'if {c} then None (* raise {ast.unparse(s.body[0].exc)[:40]} *) else\n{go()}')
-            if ends_ret(s.body) and ends_ret(s.orelse):
-                if rest:
+            if ends_ret(s.body) and (ends_ret(s.orelse) or not s.orelse):
+                # `if c: ...return  else: ...return`   or the early return   `if c: ...return` followed by the rest
+                if s.orelse and rest:
                     self.err(s, 'statements after an if that returns in both branches')
                 binds = []
                 self.pending_lets = []
@@ -528,7 +571,8 @@ class Fn:
                 r1, r2 = self.refine(s.test, ref)
                 e1, e2 = dict(env), dict(env)
                 t1 = self.block(s.body, e1, r1, tail)
-                t2 = self.block(s.orelse, e2, r2, tail)
+                t2 = self.block(s.orelse if s.orelse else rest, e2, r2, tail)
+                c, t1, t2 = self.norm_cond(c, t1, t2)
                 return self.wrap_binds(binds, f'if {c}\nthen {t1}\nelse {t2}')
             lines = self.cond_assign(s, env, ref)
             return '\n'.join(lines + [go()])
@@ -576,10 +620,11 @@ class Fn:
         body = self.block(s.body, body_env, ref, rec)
         result = '(' + ', '.join(lenv[k][0] for k in loop_keys) + ')'
         rty = ' * '.join(COQTY[env[k][1]] for k in loop_keys)
+        c, t_then, t_else = self.norm_cond(c, f"\n  match fuel with\n  | O => None     (* out of fuel *)\n  | S fuel' =>\n{body}\n  end\n",
+                                           f' Some {result}')
         text = (f'Fixpoint {fname} {" ".join(f"({n} : {t})" for n, t in ctx)} (fuel : nat) '
                 f'{" ".join(f"({n} : {t})" for n, t in lvars)} {{struct fuel}} : option ({rty}) :=\n'
-                + self.wrap_binds(binds,
-                                  f'if {c} then\n  match fuel with\n  | O => None     (* out of fuel *)\n  | S fuel\' =>\n{body}\n  end\nelse Some {result}') + '.')
+                + self.wrap_binds(binds, f'if {c} then{t_then}else{t_else}') + '.')
         self.aux.append(text)
         self.scope = saved_scope
         # ---- the call
@@ -590,6 +635,87 @@ class Fn:
         pat = names[0] if len(names) == 1 else "'(" + ', '.join(names) + ')'
         return '\n'.join([call, f'let {pat} := {p} in', self.block(rest, env, ref, tail)])
 
+    # ------------------------------------------------------------------ helpers of the same class are inlined
+    def inline(self, node, text, env, binds, ref):
+        owner, name = text.split('.', 1)
+        fdef = self.helpers[name]
+        if self.inline_depth >= 3:
+            self.err(node, 'helper calls nested too deeply')
+        a = fdef.args
+        if a.vararg or a.kwarg or a.kwonlyargs or a.defaults or a.kw_defaults or a.posonlyargs:
+            self.err(node, 'helper with default / variadic parameters')
+        decos = [ast.unparse(d) for d in fdef.decorator_list]
+        if any(d != 'staticmethod' for d in decos):
+            self.err(node, f'helper with decorator(s) {decos}')
+        params = [x.arg for x in a.args]
+        if not decos:
+            if params[:1] != ['self'] or owner != 'self':
+                self.err(node, 'an instance method must be called on self')
+            params = params[1:]
+        if len(params) != len(node.args):
+            self.err(node, 'wrong number of arguments for the helper')
+        vals = []
+        for p, an in zip(params, node.args):
+            v, tv = self.expr(an, env, binds, ref)
+            if tv in ('EMPTY',) or v.startswith('#'):
+                self.err(an, 'argument not accepted for a helper')
+            if not v.replace('_', '').isalnum():
+                tmp = self.fresh(p)
+                binds.append((tmp, v, 'let'))
+                self.scope.append((tmp, COQTY[tv]))
+                v = tmp
+            vals.append((p, v, tv))
+        env2 = {k: v for k, v in env.items() if k.startswith('self.') or k.startswith('#')} if not decos else {}
+        for p, v, tv in vals:
+            env2[p] = (v, tv)
+        saved = self.fdef_ctx
+        self.fdef_ctx = f'{self.cls}.{name} (inlined)'
+        self.inline_depth += 1
+        try:
+            return self.ret_expr(fdef.body, env2, binds, {})
+        finally:
+            self.inline_depth -= 1
+            self.fdef_ctx = saved
+
+    def ret_expr(self, stmts, env, binds, ref):
+        """the value a helper body returns, as one expression (early returns become nested conditionals)"""
+        if not stmts:
+            self.err(None, 'helper can fall off its end without a return')
+        s, rest = stmts[0], stmts[1:]
+        if isinstance(s, ast.Expr) and isinstance(s.value, ast.Constant) and isinstance(s.value.value, str):
+            return self.ret_expr(rest, env, binds, ref)
+        if isinstance(s, ast.Return):
+            if rest or s.value is None:
+                self.err(s, 'return form not accepted in a helper')
+            return self.expr(s.value, env, binds, ref)
+        if isinstance(s, ast.Assign) and len(s.targets) == 1 and isinstance(s.targets[0], ast.Name):
+            e, te = self.expr(s.value, env, binds, ref)
+            nm = self.fresh(s.targets[0].id)
+            binds.append((nm, e, 'let'))
+            self.scope.append((nm, COQTY.get(te, te)))
+            env[s.targets[0].id] = (nm, te)
+            return self.ret_expr(rest, env, binds, ref)
+        if isinstance(s, ast.If) and s.body and isinstance(s.body[-1], ast.Return):
+            if s.orelse and rest:
+                self.err(s, 'statements after an if that returns in both branches')
+            c, _ = self.cond(s.test, env, binds, ref)
+            r1, r2 = self.refine(s.test, ref)
+            b1, b2 = [], []
+            e1, t1 = self.ret_expr(s.body, dict(env), b1, r1)
+            e2, t2 = self.ret_expr(s.orelse if s.orelse else rest, dict(env), b2, r2)
+            if t1 != t2:
+                e1, e2 = self.coerce(s, e1, t1, 'D'), self.coerce(s, e2, t2, 'D')
+                t1 = 'D'
+            if self.has_partial(b1) or self.has_partial(b2):
+                v = self.fresh('v')
+                c, x1, x2 = self.norm_cond(c, self.wrap_binds(b1, "Some (" + e1 + ")"), self.wrap_binds(b2, "Some (" + e2 + ")"))
+                binds.append((v, f'(if {c} then {x1} else {x2})'))
+                return v, t1
+            c, x1, x2 = self.norm_cond(c, self.wrap_binds(b1, e1), self.wrap_binds(b2, e2))
+            return f'(if {c} then {x1} else {x2})', t1
+        self.err(s, 'statement not accepted in a helper')
+
+    # ------------------------------------------------------------------ for loops
     def for_loop(self, s, rest, env, ref, tail):
         if s.orelse:
             self.err(s, 'for-else not accepted')
@@ -601,19 +727,31 @@ class Fn:
             used = any(isinstance(n, ast.Name) and n.id == idx and id(n) not in in_raise for st in s.body for n in ast.walk(st))
             if used:
                 self.err(s, 'the enumerate index is used outside the raise message')
-        if not isinstance(var, ast.Name):
-            self.err(s, 'loop target not accepted')
         binds = []
         self.pending_lets = []
-        seq, ts = self.expr(it, env, binds, ref)
-        if ts not in ('GS', 'TS'):
-            self.err(s, 'iteration over this is not accepted')
-        ety = 'G' if ts == 'GS' else 'T'
-        x = var.id
         env2 = dict(env)
-        env2[x] = (x, ety)
+        zipped = None
+        if (isinstance(it, ast.Call) and ast.unparse(it.func) == 'zip' and len(it.args) == 2 and not it.keywords
+                and isinstance(var, ast.Tuple) and len(var.elts) == 2 and all(isinstance(e, ast.Name) for e in var.elts)):
+            a, ta = self.expr(it.args[0], env, binds, ref)
+            b, tb = self.expr(it.args[1], env, binds, ref)
+            zipped = (self.as_seq(it.args[0], a, ta), self.as_seq(it.args[1], b, tb), var.elts[0].id, var.elts[1].id)
+            env2[zipped[2]], env2[zipped[3]] = (zipped[2], 'T'), (zipped[3], 'T')
+            x = None
+        elif isinstance(var, ast.Name):
+            seq, ts = self.expr(it, env, binds, ref)
+            if ts == 'GS':
+                ety = 'G'
+            elif ts in ('TS', 'D'):
+                seq, ety = self.as_seq(it, seq, ts), 'T'
+            else:
+                self.err(s, 'iteration over this is not accepted')
+            x = var.id
+            env2[x] = (x, ety)
+        else:
+            self.err(s, 'loop target not accepted')
         # (1) validation loop: for v in L: if cond: raise
-        if len(s.body) == 1 and isinstance(s.body[0], ast.If) and not s.body[0].orelse and len(s.body[0].body) == 1 \
+        if x is not None and len(s.body) == 1 and isinstance(s.body[0], ast.If) and not s.body[0].orelse and len(s.body[0].body) == 1 \
                 and isinstance(s.body[0].body[0], ast.Raise):
             b2 = []
             c, _ = self.cond(s.body[0].test, env2, b2, ref)
@@ -622,12 +760,37 @@ class Fn:
             return self.wrap_binds(binds, f'if existsb (fun {x} => {c}) ({seq}) then None (* raise {ast.unparse(s.body[0].body[0].exc)[:30]} *) else\n'
                                    + self.block(rest, env, ref, tail))
         # (2) accumulation loop: appends to one list
-        acc, lst = self.append_list(s.body, env2, ref)
-        if acc not in env or env[acc][1] != 'GS':
-            self.err(s, 'accumulator is not a list of generators defined before the loop')
+        single = None
+        if len(s.body) == 1 and isinstance(s.body[0], ast.Expr) and isinstance(s.body[0].value, ast.Call) \
+                and isinstance(s.body[0].value.func, ast.Attribute) and s.body[0].value.func.attr == 'append' \
+                and len(s.body[0].value.args) == 1 and not s.body[0].value.keywords:
+            single = s.body[0].value
+        if single is not None:
+            # exactly `acc.append(e)`: the loop is the comprehension [e for ...]  (same term as the comprehension)
+            acc = self.key_of(single.func.value)
+            b2 = []
+            e, te = self.expr(single.args[0], env2, b2, ref)
+            if acc is None or self.has_partial(b2) or te not in ('T', 'G'):
+                self.err(s, 'append not accepted')
+            e = self.wrap_binds(b2, e)
+            lty = 'TS' if te == 'T' else 'GS'
+            if zipped:
+                code = f'zipwith (fun {zipped[2]} {zipped[3]} => {e}) ({zipped[0]}) ({zipped[1]})'
+            else:
+                code = f'map (fun {x} => {e}) ({seq})'
+        else:
+            if zipped or ety != 'G':
+                self.err(s, 'loop body not accepted (only a single append, or appends of generators)')
+            acc, lst = self.append_list(s.body, env2, ref)
+            code, lty = f'flat_map (fun {x} => {lst}) ({seq})', 'GS'
+        if acc not in env or env[acc][1] not in ('EMPTY', lty):
+            self.err(s, 'accumulator is not a list of this kind defined before the loop')
         old = env[acc][0]
-        name = self.bind(env, acc, 'GS')
-        return self.wrap_binds(binds, f'let {name} := {old} ++ flat_map (fun {x} => {lst}) ({seq}) in\n' + self.block(rest, env, ref, tail))
+        if acc.startswith('self.') and self.fields.get(acc[5:]) != lty:
+            self.err(s, 'accumulator field of another type')
+        name = self.bind(env, acc, lty)
+        val = code if old == '[]' else f'{old} ++ {code}'
+        return self.wrap_binds(binds, f'let {name} := {val} in\n' + self.block(rest, env, ref, tail))
 
     def append_list(self, stmts, env, ref):
         """statements that only append to one accumulator -> (accumulator key, coq list appended)"""
